@@ -53,6 +53,10 @@ pub struct ScriptedReader {
     pub fault_fired: bool,
     /// a decoder that never returns would hang the harness: beyond this many calls the transport panics (= data)
     pub max_calls: usize,
+    /// how the transport fills the caller's buffer: `false` = `put_slice` (initialises exactly what it fills),
+    /// `true` = `initialize_unfilled()` + copy + `advance(n)` (zeroes the WHOLE unfilled part, fills n bytes of it), as
+    /// adapters over `std::io::Read` and in-place decrypting streams do.  Both are legal `AsyncRead` behaviour.
+    pub init_style: bool,
 }
 
 pub const CALL_SLACK: usize = 200_000;
@@ -70,6 +74,7 @@ impl ScriptedReader {
             fault_at: None,
             fault_fired: false,
             max_calls: 0,
+            init_style: false,
         }
     }
     /// everything at once, then EOF
@@ -141,7 +146,13 @@ impl AsyncRead for ScriptedReader {
                 if n == 0 && cap > 0 {
                     entry.ans = "eof";
                 } else {
-                    buf.put_slice(&me.data[me.pos..me.pos + n]);
+                    if me.init_style {
+                        let un = buf.initialize_unfilled();
+                        un[..n].copy_from_slice(&me.data[me.pos..me.pos + n]);
+                        buf.advance(n);
+                    } else {
+                        buf.put_slice(&me.data[me.pos..me.pos + n]);
+                    }
                     me.pos += n;
                     entry.n = n;
                 }
@@ -181,6 +192,12 @@ pub struct ScriptedWriter {
     pub fail_at: Option<(usize, WStep)>,
     pub fail_fired: bool,
     pub ncalls: usize,
+    /// the sink reports `is_write_vectored()` and takes bytes across the offered slices in order
+    pub vectored: bool,
+    /// a dead connection: once the injected write fault has been answered, `poll_flush` (and `poll_shutdown`) fail with
+    /// this OTHER kind.  The write fault is what the encoder has to report.
+    pub flush_kind_after_fault: Option<io::ErrorKind>,
+    pub nflush: usize,
 }
 
 impl ScriptedWriter {
@@ -193,6 +210,9 @@ impl ScriptedWriter {
             fail_at: None,
             fail_fired: false,
             ncalls: 0,
+            vectored: false,
+            flush_kind_after_fault: None,
+            nflush: 0,
         }
     }
     fn answer(&mut self, len: usize) -> WStep {
@@ -257,10 +277,64 @@ impl AsyncWrite for ScriptedWriter {
         out
     }
     fn poll_flush(self: Pin<&mut Self>, _cx: &mut Context<'_>) -> Poll<io::Result<()>> {
-        Poll::Ready(Ok(()))
+        let me = self.get_mut();
+        me.nflush += 1;
+        match me.flush_kind_after_fault {
+            Some(k) if me.fail_fired => Poll::Ready(Err(io::Error::new(k, "flush on a dead connection"))),
+            _ => Poll::Ready(Ok(())),
+        }
     }
-    fn poll_shutdown(self: Pin<&mut Self>, _cx: &mut Context<'_>) -> Poll<io::Result<()>> {
-        Poll::Ready(Ok(()))
+    fn poll_shutdown(self: Pin<&mut Self>, cx: &mut Context<'_>) -> Poll<io::Result<()>> {
+        self.poll_flush(cx)
+    }
+    fn is_write_vectored(&self) -> bool {
+        self.vectored
+    }
+    fn poll_write_vectored(
+        self: Pin<&mut Self>,
+        cx: &mut Context<'_>,
+        bufs: &[io::IoSlice<'_>],
+    ) -> Poll<io::Result<usize>> {
+        if !self.vectored {
+            // the default behaviour of the trait: the first non-empty slice
+            let b = bufs.iter().find(|b| !b.is_empty()).map_or(&[][..], |b| &**b);
+            return self.poll_write(cx, b);
+        }
+        let me = self.get_mut();
+        let total: usize = bufs.iter().map(|b| b.len()).sum();
+        let step = me.answer(total);
+        let mut e = WriteLog { len: total, ans: "accept", n: 0, kind: None };
+        let out = match step {
+            WStep::Pending => {
+                e.ans = "pending";
+                Poll::Pending
+            }
+            WStep::Zero => {
+                e.ans = "zero";
+                Poll::Ready(Ok(0))
+            }
+            WStep::Err(k) => {
+                e.ans = "err";
+                e.kind = Some(k);
+                Poll::Ready(Err(io::Error::new(k, "injected")))
+            }
+            WStep::Accept(k) => {
+                let mut left = k.max(1).min(total);
+                let n = left;
+                for b in bufs {
+                    let t = left.min(b.len());
+                    me.sink.extend_from_slice(&b[..t]);
+                    left -= t;
+                    if left == 0 {
+                        break;
+                    }
+                }
+                e.n = n;
+                Poll::Ready(Ok(n))
+            }
+        };
+        me.log.push(e);
+        out
     }
 }
 
